@@ -110,6 +110,18 @@ func (s *Sim) GenTx() []byte {
 			amt = s.boundaryAmount()
 		}
 		spec = s.base(k, ctrlertypes.TRX_TRANSFER, to, amt, nil)
+		if r.Chance(7) { // spend the balance to the last unit: amount + fee == balance (and one more / one less)
+			fee := new(uint256.Int).Mul(spec.GasPrice, uint256.NewInt(spec.Gas))
+			if bal.Cmp(fee) > 0 {
+				spec.Amount = new(uint256.Int).Sub(bal, fee)
+				switch r.Intn(4) {
+				case 0:
+					spec.Amount = new(uint256.Int).Add(spec.Amount, uint256.NewInt(1))
+				case 1:
+					spec.Amount = new(uint256.Int).Sub(spec.Amount, uint256.NewInt(1))
+				}
+			}
+		}
 	case 1: // self staking
 		spec = s.base(k, ctrlertypes.TRX_STAKING, k.Addr, Rigo(uint64(r.Range(1, 12))), nil)
 	case 2: // delegating
